@@ -1,1 +1,25 @@
-fn main() {}
+//! l2: runtime monitors; usage: l2 <property> --seed S --tier quick|thorough --shard i --shards n [--budget N] --out frag.json [--replay file]
+mod c02;
+mod c15;
+mod c17;
+mod c20;
+
+use vcore::{Args, Report};
+
+fn main() {
+    let args = Args::parse();
+    let prop = args.pos.first().cloned().unwrap_or_default();
+    vcore::panics::install(!args.flag("loud"));
+    let mut rep = Report::new(&prop.to_uppercase(), args.seed());
+    match prop.as_str() {
+        "c02" => c02::run(&args, &mut rep),
+        "c15" => c15::run(&args, &mut rep),
+        "c17" => c17::run(&args, &mut rep),
+        "c20" => c20::run(&args, &mut rep),
+        other => {
+            eprintln!("unknown property {other}");
+            std::process::exit(2);
+        }
+    }
+    rep.finish(args.get("out"));
+}
